@@ -7,7 +7,8 @@
    returns (in particular that smoothing keeps the distribution non-negative).
    `solver` = scipy.optimize.minimize(SLSQP, bounds (0, None)); its post-condition is an explicit premise. *)
 From Coq Require Import Reals Lra QArith ZArith List Bool Arith.
-From PG Require Import Lib.Num Lib.Py Charact.Kernel Charact.KernelTheorems.
+From Coq Require String.
+From PG Require Import Lib.Num Lib.Py Charact.Kernel Charact.KernelTheorems Charact.KernelCache.
 Import ListNotations.
 Open Scope R_scope.
 
@@ -112,6 +113,34 @@ Proof. exact out_of_range_refused. Qed.
 Print Assumptions out_of_range_refused.
 
 (* ---- the premises are satisfiable *)
+(* several kernel files in ONE process (model of _load_kernel's cache, Charact/KernelCache.v): whatever was loaded before, the
+   kernel handed to the i-th fit is the parse of the i-th requested file; for ANY number of files, any order, any repetition.
+   `parse` = reading the csv at that path into interpolators (files do not change while the process runs). *)
+Theorem kernel_cache_returns_the_requested_kernel : forall (kernel : Type) (parse : String.string -> kernel) ps i d dp,
+  (i < List.length ps)%nat -> nth i (path_cache_run parse ps) d = parse (nth i ps dp).
+Proof. exact path_cache_returns_the_requested_kernel_l. Qed.
+Print Assumptions kernel_cache_returns_the_requested_kernel.
+
+(* the same for a cache indexed by any key that determines the file content *)
+Theorem keyed_cache_returns_the_requested_kernel : forall (path key kernel : Type) (key_eqb : key -> key -> bool),
+  (forall a b, key_eqb a b = true <-> a = b) ->
+  forall (key_of : path -> key) (parse : path -> kernel),
+  (forall p q, key_of p = key_of q -> parse p = parse q) ->
+  forall ps i d dp, (i < List.length ps)%nat ->
+  nth i (run path key kernel key_eqb key_of parse [] ps) d = parse (nth i ps dp).
+Proof. exact cache_returns_the_requested_kernel_l. Qed.
+Print Assumptions keyed_cache_returns_the_requested_kernel.
+
+(* ... and why the key matters: indexed by the file name without its directory, the second of two namesakes gets the first
+   one's kernel *)
+Theorem cache_keyed_by_file_name_refuted :
+  exists (ps : list (String.string * String.string)),
+    let key_of := fun p : String.string * String.string => snd p in
+    let parse := fun p : String.string * String.string => p in
+    nth 1 (run _ _ _ String.eqb key_of parse [] ps) (String.EmptyString, String.EmptyString) <> parse (nth 1 ps (String.EmptyString, String.EmptyString)).
+Proof. exact cache_keyed_by_name_refuted. Qed.
+Print Assumptions cache_keyed_by_file_name_refuted.
+
 Example solver_contract_satisfiable :
   exists solver : list (list R) -> list R -> res (list R),
     (forall KP l x, solver KP l = Ok x -> length x = length KP /\ Forall (Rle 0) x) /\
